@@ -24,6 +24,7 @@ and has TLC validate every record in batch.  Python computes no expected value.
 import itertools
 import json
 import logging
+import os
 import sys
 
 import numpy as np
@@ -41,6 +42,10 @@ OFFSETS = [(0, 0, 0), (4, -8, 4), (-4, 4, 8), (8, 4, -4), (-8, -4, -8), (4, 8, 0
 BOUNDS = [(3, 4), (1, 1), (3, 2), (2, 1), (5, 2), (3, 1), (4, 1), (6, 1), (100, 1)]
 MAX_ITERS = [0, 1, 2, 3, 5, 10]
 INT_LIMIT = 2 ** 31 - 1
+# scratch directory under /verif/.work (a suffix lets several runs, e.g. of mutants, coexist)
+WORKNAME = "c18" + os.environ.get("VERIF_C18_WORK_SUFFIX", "")
+# tag printed by Repair.tla Deviation(c) -> id of the known finding (known_findings.jsonl)
+DEVIATIONS = {"QDE": "FillHolesQuadDiagonalIsExistingEdge"}
 
 
 # ------------------------------------------------------------------ input surfaces
@@ -93,6 +98,9 @@ def library():
     gid = lambda r, s: 4 * r + s
     sheet_v = [[4 * r, 4 * s, 4 * ((r * s) % 2)] for r in range(4) for s in range(4)]
     sheet_f = quads([[gid(r, s), gid(r + 1, s), gid(r + 1, s + 1), gid(r, s + 1)] for r in range(3) for s in range(3)])
+    hid = lambda r, s: 5 * r + s
+    sheet4_v = [[4 * r, 4 * s, 4 * ((r + 2 * s) % 3 == 0)] for r in range(5) for s in range(5)]
+    sheet4_f = quads([[hid(r, s), hid(r + 1, s), hid(r + 1, s + 1), hid(r, s + 1)] for r in range(4) for s in range(4)])
     cube_shift = [[x + 8, y + 8, z] for x, y, z in cube_v]
     two_v, two_f = join([(tet_v, outward(tet_v, tet_f)), (cube_shift, outward(cube_shift, cube_f))])
     return {
@@ -104,6 +112,7 @@ def library():
         "tet_and_cube": (two_v, two_f, True),
         "torus3x3": (tor_v, outward(tor_v, tor_f), True),
         "sheet3x3": (sheet_v, sheet_f, False),
+        "sheet4x4": (sheet4_v, sheet4_f, False),
     }
 
 
@@ -361,15 +370,34 @@ def adjacent_pairs(f):
     return [(a, b) for a, b in itertools.combinations(range(len(f)), 2) if len(set(f[a]) & set(f[b])) == 2]
 
 
-def interior_faces(f):
-    """Faces without an edge on the boundary (open sheet): removing one leaves a missing triangle."""
+def manifold_after_removal(f, removed):
+    """Input selection only (Repair.tla InputSane checks it again): the removed faces have no edge on
+    the border of the surface, and after removing them the faces around every touched vertex still
+    form one fan - i.e. what is left is a manifold with a hole, not a pinched surface."""
+    rest = [t for k, t in enumerate(f) if k not in removed]
+    if not rest:
+        return False
     cnt = {}
     for t in f:
         for j in range(3):
             e = tuple(sorted((t[j], t[(j + 1) % 3])))
             cnt[e] = cnt.get(e, 0) + 1
-    return [k for k, t in enumerate(f)
-            if all(cnt[tuple(sorted((t[j], t[(j + 1) % 3])))] == 2 for j in range(3))]
+    if any(cnt[tuple(sorted((f[k][j], f[k][(j + 1) % 3])))] != 2 for k in removed for j in range(3)):
+        return False                    # a removed face on the border of an open sheet is not a hole
+    for v in {x for k in removed for x in f[k]}:
+        inc = [t for t in rest if v in t]
+        if not inc:
+            return False
+        seen, todo = {0}, [0]
+        while todo:
+            a = todo.pop()
+            for b in range(len(inc)):
+                if b not in seen and len(set(inc[a]) & set(inc[b])) == 2:
+                    seen.add(b)
+                    todo.append(b)
+        if len(seen) != len(inc):
+            return False
+    return True
 
 
 def subsets(n):
@@ -422,8 +450,8 @@ def work_items(tier):
         fix_family("tet_and_cube", list(subsets(16)), 1, True)
         fix_family("torus3x3", sampled(18, 30000), 11, False)
         fix_family("skew_tetrahedron", list(subsets(4)), 1, True)
-    for name, cnt in (("tetrahedron", 40), ("octahedron", 120), ("cube", 300), ("tet_and_cube", 300),
-                      ("torus3x3", 300), ("regular_octahedron", 60)):
+    for name, cnt in (("tetrahedron", 16), ("octahedron", 60), ("cube", 220), ("tet_and_cube", 220),
+                      ("torus3x3", 220), ("regular_octahedron", 30)):
         fix_family(name, sampled(len(LIB[name][1]), cnt * (8 if big else 1)), 7, False)
     # whole bodies of one or both components re-wound (the per-body inversion test alone)
     for name in ("tetrahedron", "octahedron", "cube", "tet_and_cube", "torus3x3"):
@@ -440,21 +468,19 @@ def work_items(tier):
         add(op="fix", name="sheet3x3", pres=k % 5, flips=flips, style=k, api=FIX_APIS[k % 4], warm=k % 2)
 
     # ---- hole filling: every single face, every adjacent pair (quad hole); thorough: every pair
-    for name in ("tetrahedron", "skew_tetrahedron", "octahedron", "cube", "tet_and_cube", "torus3x3", "sheet3x3"):
+    for name in ("tetrahedron", "skew_tetrahedron", "octahedron", "cube", "tet_and_cube", "torus3x3", "sheet4x4"):
         for pres in range(8 if big else 3):
             v, f, closed = present(name, pres)
-            allowed = list(range(len(f))) if closed else interior_faces(f)
             k = 0
-            for a in allowed:
-                add(op="fill", name=name, pres=pres, removed=[a], warm=(a + pres) % 2)
-            pairs = adjacent_pairs(f)
-            if big:
-                pairs = list(itertools.combinations(range(len(f)), 2))
+            for a in range(len(f)):
+                if manifold_after_removal(f, [a]):
+                    add(op="fill", name=name, pres=pres, removed=[a], warm=(a + pres) % 2)
+            pairs = list(itertools.combinations(range(len(f)), 2)) if big else adjacent_pairs(f)
             for a, b in pairs:
-                if a in allowed and b in allowed:
+                if manifold_after_removal(f, [a, b]):
                     add(op="fill", name=name, pres=pres, removed=[a, b], warm=(k + pres) % 2)
                     k += 1
-        exhaustive.append("fill_holes: every single face and every %s of %s removed"
+        exhaustive.append("fill_holes: every single face and every %s of %s whose removal leaves a manifold"
                           % ("pair of faces" if big else "edge-adjacent pair of faces", name))
 
     # ---- subdivide: all faces (face_index None and the full index list) and face subsets
@@ -485,16 +511,16 @@ def work_items(tier):
             add(op="subdivide", name=name, pres=k % 5, sel=sel, depth=1, api=("mesh", "func")[k % 2], warm=(k // 2) % 2)
 
     # ---- subdivide_to_size: grid of bounds x iteration caps
-    pieces = 5000 if big else 1300
+    pieces = 5000 if big else 800
     for name in ("tetrahedron", "skew_tetrahedron", "regular_octahedron", "cube", "sheet3x3", "tet_and_cube"):
         if name == "tet_and_cube" and not big:
             continue
         k = 0
         for (n, d) in BOUNDS:
             for mi in MAX_ITERS:
-                add(op="tosize", name=name, pres=0, me_n=n, me_d=d, max_iter=mi, ri=k % 2, max_pieces=pieces)
+                add(op="tosize", name=name, pres=0, me_n=n, me_d=d, max_iter=mi, ri=(k + k // 6) % 2, max_pieces=pieces)
                 if big:
-                    add(op="tosize", name=name, pres=0, me_n=n, me_d=d, max_iter=mi, ri=(k + 1) % 2,
+                    add(op="tosize", name=name, pres=0, me_n=n, me_d=d, max_iter=mi, ri=(k + k // 6 + 1) % 2,
                         max_pieces=pieces)
                 k += 1
     exhaustive.append("subdivide_to_size: %d bounds x %d iteration caps per surface" % (len(BOUNDS), len(MAX_ITERS)))
@@ -635,12 +661,24 @@ def main(argv):
     byid = {c["id"]: c for c in cases}
     # the validator's shards take every 16th record: interleave the large ones
     slim = [{k: v for k, v in c.items() if k != "item"} for c in sorted(cases, key=lambda c: -len(c["f1"]))]
-    rejects, states, wall = tlc.validate_batches("c18", "Repair", slim, CFG, timeout=3000)
+    os.environ.setdefault("JAVA_TOOL_OPTIONS", "-Xmx2g")       # 16 JVMs: keep every heap bounded
+    rejects, states, wall = tlc.validate_batches(WORKNAME, "Repair", slim, CFG, timeout=3000)
+    if states != len(cases):
+        raise MachineryError("TLC judged %d of %d records" % (states, len(cases)))
+    by_dev = {}
     for cid, clause in sorted(rejects.items()):
         c = byid[cid]
         d = brief(c)
         d["item"] = c["item"]
-        V.violation(clause, d)
+        # Repair.tla prints the tag of a named deviation (decided on the input only) after the clause
+        dev = None
+        if " " in clause:
+            clause, tag = clause.split(" ", 1)
+            dev = DEVIATIONS.get(tag.strip().strip('"'))
+            if dev is None:
+                raise MachineryError("unknown deviation tag from Repair.tla: " + tag)
+            by_dev[dev] = by_dev.get(dev, 0) + 1
+        V.violation(clause, d, dev)
     st = stats_of(cases)
     if "--replay" not in argv and not V.violations:
         need = {"fix_pre_winding_broken": 500, "fix_result_differs_from_pre": 500, "fill_triangle_hole": 50,
@@ -662,6 +700,7 @@ def main(argv):
         "exhaustive": bool(exhaustive),
         "exhaustive_scopes": exhaustive,
         "rejected": len(rejects),
+        "rejected_by_deviation": by_dev,
         "to_size_results_too_large_to_validate": len(skipped),
         "tlc_wall_s": round(wall, 1),
         "samples": list(pick.values()) or [brief(cases[0])],
